@@ -70,6 +70,10 @@ func init() {
 	Checks["C19"] = &Check{Level: "model_checking", Run: CheckC19, QuickBudget: 240, ThoroughBudget: 1500, ReplayOps: c19Replay}
 }
 
+func init() {
+	Checks["C07"] = &Check{Level: "exploration", Run: CheckC07, QuickBudget: 240, ThoroughBudget: 1500}
+}
+
 // kReplay re-executes an operation-history counterexample of the K space.
 func kReplay(prop string) func(v *Viol) []string {
 	return func(v *Viol) []string {
